@@ -391,6 +391,18 @@ class NoCopy:
         return '@NOCOPY'
 
 
+class _FutureMarker:
+    def __repr__(self):
+        return '@FUTURE'
+
+
+class QuietFuture(asyncio.Future):
+    """A (pending) loop future handed over as a plain value -- the handle of work going on elsewhere: nobody here is to wait for it."""
+
+    def __repr__(self):
+        return '@FUTURE'
+
+
 class Handle:
     """An awaitable that is nobody's business to await (the handle of work started elsewhere), returned as a plain value."""
 
@@ -417,6 +429,11 @@ def special(value):
         return Handle()
     if isinstance(value, str) and value == '@NOCOPY':
         return NoCopy()
+    if isinstance(value, str) and value == '@FUTURE':
+        try:
+            return QuietFuture(loop=asyncio.get_event_loop())
+        except RuntimeError:
+            return _FutureMarker()  # (asked for outside any loop, for the expected trace only: it prints the same)
     if isinstance(value, str) and value == '@EXCOBJ':
         return ProgError('an exception object handed over as a value')
     if isinstance(value, str) and value == '@T12':
